@@ -50,6 +50,14 @@ func C15(seed int64, n int) (*cq.Set, *cq.Interner) {
 			set.GoFails = append(set.GoFails, cq.GoFail{What: "cannot build Admission: " + err.Error(), Replay: map[string]interface{}{"cfg": cfg}})
 			continue
 		}
+		// the same few namespace policies recur within a history (pods and controllers under one policy)
+		pool := []map[string]string{admLabels(r, 40), admLabels(r, 40), {}}
+		labelHook = func(r *rand.Rand) map[string]string {
+			if r.Intn(100) < 60 {
+				return pool[r.Intn(len(pool))]
+			}
+			return nil
+		}
 		var scs []scenario
 		for i := 0; i < 40; i++ {
 			var s scenario
@@ -71,6 +79,7 @@ func C15(seed int64, n int) (*cq.Set, *cq.Interner) {
 			s.Marker = marker
 			scs = append(scs, s)
 		}
+		labelHook = nil
 		long := make([]*admissionv1.AdmissionResponse, len(scs))
 		longShared := make([]string, len(scs))
 		for i := range scs {
